@@ -167,10 +167,17 @@ Fixpoint updates_obs_eqb (own : bool) (a b : list (option (string * resources)))
 Definition holds_C05 (c : adapt_case) : bool :=
   let cr := created_of (ac_req c) in
   implb (self_update cr (ac_resps c)) (negb (Nat.eqb (ac_err c) 0)) &&
-  match ac_err c, spec_updates cr (own_of (ac_req c)) (ac_resps c) with
-  | O, Some us => updates_obs_eqb (match ac_req c with RUpdate _ _ => true | _ => false end) us (ac_updates c)
-  | O, None => false
-  | _, _ => true
+  match spec_updates cr (own_of (ac_req c)) (ac_resps c) with
+  | Some us =>
+      (* no hard conflict (a conflicting ignore-failure update is DROPPED, it does not fail the request):
+         the request succeeds unless it updates the container being created ... *)
+      (self_update cr (ac_resps c) || Nat.eqb (ac_err c) 0) &&
+      (* ... and hands the runtime exactly the specified updates *)
+      match ac_err c with
+      | O => updates_obs_eqb (match ac_req c with RUpdate _ _ => true | _ => false end) us (ac_updates c)
+      | _ => true
+      end
+  | None => negb (Nat.eqb (ac_err c) 0)
   end.
 
 (* one evaluation of the model per case; order = the predicate names given by the driver *)
